@@ -173,3 +173,20 @@ class ContextOpeningKeywords:
             self_.lexer.sequence = True
         elif t.type == "CHECK":
             self_.lexer.check = True
+
+
+@contract
+class ResetLexerFlags:
+    """set_default_flags_in_lexer puts every context flag of the lexer back to its start value (False, the `<` counter
+    to 0), whatever it held"""
+    fn = "parser.Parser.set_default_flags_in_lexer"
+    props = ["C03", "C01", "C05", "C08", "C09", "C12", "C16", "C17", "C18"]
+    cases = {"any lexer state": {}}
+
+    def build(G, case):
+        return dict(args=[G.parser(lexer=lexer_flags(G))])
+
+    def spec(case, self_):
+        for name in ("is_table", "sequence", "last_token", "columns_def", "after_columns", "check", "last_par", "lp_open", "is_alter", "is_like"):
+            setattr(self_.lexer, name, False)
+        self_.lexer.lt_open = 0
